@@ -193,8 +193,8 @@ template <class TM, class SM> struct Harness {
     { opt.setOptimizationFlags(flags_of(cfg.mask ^ 0x22)); (void)opt.getDimension(); opt.setOptimizationFlags(flags_of(cfg.mask)); }
     // default arguments are eps = 1e-6, tol = 1e-4 and the built-in workspace (no domain needed: pure forwarding)
     { WS wa, wb; auto r1 = opt.checkGradients(x, tc, wc, rc, &wa), r2 = opt.checkGradients(x, tc, wc, rc, &wb, 1e-6, 1e-4); auto r3 = opt.checkGradients(x, tc, rc, &wa), r4 = opt.checkGradients(x, tc, rc, &wb, 1e-6, 1e-4); ++c.st.comparisons;
+      if (r1.analytical.size() != n || r1.numerical.size() != n || r2.numerical.size() != n || r3.numerical.size() != n || r4.numerical.size() != n) { fail("selfcheck-after-reconfiguration", fmt("checkGradients right after setOptimizationFlags (no query in between) returns %ld analytical / %ld numerical entries for a decision vector of %d", (long)r1.analytical.size(), (long)r1.numerical.size(), n)); return; }
       bool ok = r1.valid == r2.valid && bits_equal(r1.error_norm, r2.error_norm) && bits_equal(r1.numerical.data(), r2.numerical.data(), n) && r3.valid == r4.valid && bits_equal(r3.error_norm, r4.error_norm) && bits_equal(r3.numerical.data(), r4.numerical.data(), n);
-      if (r1.analytical.size() != n || r1.numerical.size() != n || r3.numerical.size() != n) { fail("selfcheck-after-reconfiguration", fmt("checkGradients right after setOptimizationFlags returns %ld/%ld entries for a decision vector of %d", (long)r1.analytical.size(), (long)r1.numerical.size(), n)); return; }
       if (!ok) { fail("selfcheck-defaults", "default eps/tol are not 1e-6 / 1e-4"); return; } }
     // Trustworthy domain, decided a priori from measurements that do not involve checkGradients:
     //   rounding: spread of the cost under perturbations of 2^-40 with the analytic first-order term removed -> floor = sigma sqrt(n)/eps
